@@ -222,6 +222,7 @@ static void stackNames(void* retAddr, std::vector<std::string>& names, unsigned 
     names.clear();
     for (int i = start; i < n && names.size() < limit; ++i) {
         const std::string& s = symbolOf(buf[i]);
+        if (s.compare(0, 12, "__libc_start") == 0 || s == "_start" || s == "main") break;   // left the libraries
         if (!s.empty()) names.push_back(s);
     }
 }
